@@ -47,3 +47,30 @@ pub fn note_count(kind: &str) -> usize {
             .unwrap_or(0)
     })
 }
+
+thread_local! {
+    static LAST_DETAIL: RefCell<Vec<(&'static str, String)>> = RefCell::new(Vec::new());
+}
+
+/// Like [`note`], and keeps the text of the latest event of this kind (e.g. the error message that was printed)
+pub fn note_detail(kind: &'static str, detail: String) {
+    note(kind);
+    LAST_DETAIL.with(|last| {
+        let mut last = last.borrow_mut();
+        if let Some(entry) = last.iter_mut().find(|(k, _)| *k == kind) {
+            entry.1 = detail;
+        } else {
+            last.push((kind, detail));
+        }
+    })
+}
+
+/// Text of the latest event of this kind recorded by the current thread with [`note_detail`]
+pub fn last_detail(kind: &str) -> Option<String> {
+    LAST_DETAIL.with(|last| {
+        last.borrow()
+            .iter()
+            .find(|(k, _)| *k == kind)
+            .map(|(_, d)| d.clone())
+    })
+}
